@@ -671,7 +671,7 @@ class RecGen:
         return {k: self.value(depth, docs) for k in ks}
 
     def arr(self, depth, docs=True):
-        n = self.rng.randint(1, 3)
+        n = self.rng.choice([0, 1, 1, 2, 2, 2, 3, 3, 4])
         if self.rng.random() < 0.6:
             # objects with overlapping key sets: wildcards match some elements only
             pool = self.rng.sample(KEYS, 3)
@@ -773,7 +773,8 @@ def gen_paths(rng, tree):
             hop = "json-json-hop"
         if any(isinstance(at(tree, loc[:i]), Doc) and at(tree, loc[:i]).b64 for i in range(len(loc))):
             hop += "+b64"
-        form = rng.choice(["plain", "plain", "bracket", "wild", "wild", "desc", "desc2", "neg", "missing", "missing-hop", "xnoidx"])
+        form = rng.choice(["plain", "plain", "bracket", "wild", "wild", "desc", "desc2", "neg", "negout", "wildneg", "wildneg", "missing",
+                           "missing-hop", "xnoidx"])
         sp = list(spec)
         jidx = [i for i, st in enumerate(sp) if st[0] in ("child", "bracket", "nth")]
         if form == "bracket":
@@ -817,6 +818,34 @@ def gen_paths(rng, tree):
             if not isinstance(parent, list):
                 continue
             sp[i] = ("nth", sp[i][1] - len(parent))
+        elif form == "negout":
+            # a negative index below -len of its array: denotes nothing
+            nth = [i for i in jidx if sp[i][0] == "nth"]
+            if not nth:
+                continue
+            i = rng.choice(nth)
+            parent = at(tree, denote(sp[:i], tree)[0]) if denote(sp[:i], tree) else None
+            if not isinstance(parent, list):
+                continue
+            sp[i] = ("nth", -len(parent) - rng.randint(1, 2))
+        elif form == "wildneg":
+            # a wildcard or a descent before a negative index: the arrays it reaches differ in length, the index
+            # is within some of them and below -len of others
+            nth = [i for i in jidx if sp[i][0] == "nth" and any(j < i for j in jidx)]
+            if not nth:
+                continue
+            i = rng.choice(nth)
+            j = rng.choice([j for j in jidx if j < i])
+            if rng.random() < 0.7:
+                sp[j] = ("wild", rng.choice(["[*]", ".*"]) if sp[j][0] != "nth" else "[*]")
+                lens = [len(at(tree, l)) for l in denote(sp[:i], tree) if isinstance(at(tree, l), list)]
+                # within the longest array it reaches, below -len of a shorter one when the lengths differ
+                sp[i] = ("nth", -max(lens) if lens and rng.random() < 0.6 else -rng.randint(1, 4))
+            else:
+                segs = [(a, b) for a, b, k in seg_bounds(sp) if k == "json" and a <= j < i < b]
+                if not segs or i - 1 < segs[0][0] or sp[i - 1][0] not in ("child",):
+                    continue
+                sp = sp[:j] + [("desc",)] + sp[i - 1:i] + [("nth", -rng.randint(1, 4))] + sp[i + 1:]
         elif form == "missing":
             i = rng.randrange(len(sp))
             t = sp[i][0]
